@@ -110,60 +110,95 @@ theorem C19_writer_accepts (s : St) (k : Nat) (v : Int) (ts now : Int) (h : (ent
     · rw [hins]; simp [samplesOfKey, hpush _ _ _ hi0, hlen]
     · simp [lookup, isReg, hins, hpush _ _ _ hi0, hregd]
 
-/-- C19 (writer, public call): when `write` is answered OutOfResources and did not have to replace a sample, the
-    writer is exactly as before -/
-theorem C19_writer_method_refuses (s : St) (k : Nat) (v : Int) (ts now : Int)
-    (h : (methodWrite s k v ts now).2.reply = some .outOfResources) (he : (methodWrite s k v ts now).2.evicted = []) :
-    (methodWrite s k v ts now).1 = s ∧ (methodWrite s k v ts now).2.dgrams = [] := by
+/-- KEEP_LAST replacement + entity write (both call sites): in a state that satisfies the limit invariant, a refusal
+    leaves the whole state unchanged - nothing was evicted, nothing sent -/
+theorem evictWrite_refuses (s : St) (k : Nat) (v : Int) (ts now : Int) (sn : Nat) (hinv : WInv s)
+    (hf : fullFront s k = some sn) (h : (evictWrite s k v ts now sn).2.reply = some .outOfResources) :
+    (evictWrite s k v ts now sn).1 = s ∧ (evictWrite s k v ts now sn).2.dgrams = [] ∧
+    (evictWrite s k v ts now sn).2.evicted = [] := by
+  unfold evictWrite at h ⊢
+  by_cases hroom : roomFor s k = true
+  · exfalso
+    simp only [hroom, Bool.not_true, Bool.false_eq_true, if_false, entOut, Option.some.injEq] at h
+    obtain ⟨d, i, hd, hi, hlen, hhead⟩ := fullFront_some hf
+    obtain ⟨hq, ⟨hl1, _, _⟩, _⟩ := hinv
+    have hne : i.samples ≠ [] := by intro hn; simp [hn] at hhead
+    have hex := (C19_writer_rejects_iff (evict s k sn) k v ts now).mp h
+    have hfe : findInst k (evict s k sn).insts = some { i with samples := i.samples.tail } := by
+      simp [evict, findInst_popFront, hi]
+    rcases hex with ⟨h1, m, hm, hle⟩ | ⟨m, hm, hdm, _⟩ | ⟨m, hm, hle⟩
+    · -- max_instances: excluded by has_room_for_instance, which was tested before the eviction
+      simp only [isReg, hfe] at h1
+      simp only [evict, regCount_popFront] at hle
+      have hm' : s.qos.maxInstances = some m := hm
+      simp only [roomFor, isReg, hi, h1, Bool.false_or, ltLen, hm', decide_eq_true_eq] at hroom
+      omega
+    · have := hq.2 d m hd hm
+      have := hdm d hd
+      omega
+    · have h1 := hl1 m hm
+      have h2 := totalSamples_popFront hi hne
+      simp only [evict] at hle
+      omega
+  · simp [hroom]
+
+/-- C19 (writer, a refused write changes nothing - PARTICIPANT-level call, with fixes/D81.patch): in every state
+    that satisfies the limit invariant (all reachable states, C19_writer_limits) `write` / `write_w_timestamp`
+    answering OutOfResources leaves the WHOLE writer state as it was: no instance registered, no sample stored OR
+    EVICTED, no sequence number consumed, nothing sent -/
+theorem C19_writer_method_refuses (s : St) (k : Nat) (v : Int) (ts now : Int) (hinv : WInv s)
+    (h : (methodWrite s k v ts now).2.reply = some .outOfResources) :
+    (methodWrite s k v ts now).1 = s ∧ (methodWrite s k v ts now).2.dgrams = [] ∧
+    (methodWrite s k v ts now).2.evicted = [] := by
   cases hf : fullFront s k with
   | none =>
     simp only [methodWrite, hf, entOut, Option.some.injEq] at h ⊢
-    exact C19_writer_refuses s k v ts now h
-  | some sn =>
-    simp only [methodWrite, hf] at h he ⊢
-    by_cases hb : (s.qos.reliable && !(isAcked s sn)) = true
-    · rw [if_pos hb] at h
-      split at h <;> simp [Out.none] at h
-    · rw [if_neg hb] at he
-      simp [entOut] at he
-
-/-- C19 (writer, no sample is sacrificed for a refused write): in every state that satisfies the limit invariant
-    (all reachable states, see C19_writer_limits) with a consistent QoS, a write to a REGISTERED instance that is
-    answered OutOfResources has not removed a sample on the KEEP_LAST path either. (Excluded: the instance was
-    unregistered, its deque is still full and max_instances other instances are registered - then
-    write_w_timestamp evicts the oldest, acknowledged sample before DataWriterEntity refuses the re-registration;
-    observation noted in notes/w2c.md.) -/
-theorem C19_writer_no_evict_when_refused (s : St) (k : Nat) (v : Int) (ts now : Int) (hinv : WInv s)
-    (hreg : isReg s.insts k = true)
-    (h : (methodWrite s k v ts now).2.reply = some .outOfResources) :
-    (methodWrite s k v ts now).2.evicted = [] := by
-  cases hf : fullFront s k with
-  | none => simp [methodWrite, hf, entOut]
+    exact ⟨(C19_writer_refuses s k v ts now h).1, (C19_writer_refuses s k v ts now h).2, trivial⟩
   | some sn =>
     simp only [methodWrite, hf] at h ⊢
     by_cases hb : (s.qos.reliable && !(isAcked s sn)) = true
-    · rw [if_pos hb] at h ⊢
+    · rw [if_pos hb] at h
       split at h <;> simp [Out.none] at h
-    · rw [if_neg hb] at h
-      exfalso
-      simp only [entOut, Option.some.injEq] at h
-      obtain ⟨d, i, hd, hi, hlen, hhead⟩ := fullFront_some hf
-      obtain ⟨hq, ⟨hl1, _, _⟩, _⟩ := hinv
-      have hne : i.samples ≠ [] := by intro hn; simp [hn] at hhead
-      have hex := (C19_writer_rejects_iff (evict s k sn) k v ts now).mp h
-      have hfe : findInst k (evict s k sn).insts = some { i with samples := i.samples.tail } := by
-        simp [evict, findInst_popFront, hi]
-      rcases hex with ⟨h1, m, hm, hle⟩ | ⟨m, hm, hdm, _⟩ | ⟨m, hm, hle⟩
-      · simp only [isReg, hfe] at h1
-        simp only [isReg, hi] at hreg
-        rw [hreg] at h1; cases h1
-      · have := hq.2 d m hd hm
-        have := hdm d hd
-        omega
-      · have h1 := hl1 m hm
-        have h2 := totalSamples_popFront hi hne
-        simp only [evict] at hle
-        omega
+    · rw [if_neg hb] at h ⊢
+      exact evictWrite_refuses s k v ts now sn hinv hf h
+
+/-- the same for a parked write that process_pending_write_samples completes with OutOfResources: the write is
+    un-parked, nothing else changes -/
+theorem C19_writer_pending_refuses (s : St) (now : Int) (hinv : WInv s)
+    (h : (processPending s now).2.reply = some .outOfResources) :
+    (processPending s now).1 = { s with pending := none } ∧ (processPending s now).2.dgrams = [] ∧
+    (processPending s now).2.evicted = [] := by
+  cases hp : s.pending with
+  | none => simp [processPending, hp, Out.none] at h
+  | some p =>
+    simp only [processPending, hp] at h ⊢
+    by_cases hcw : canWrite s p.key = true
+    · rw [if_pos hcw] at h ⊢
+      have hinv' : WInv { s with pending := none } := winv_of_frame hinv rfl rfl
+      cases hf : fullFront s p.key with
+      | some sn =>
+        simp only [hf] at h ⊢
+        exact evictWrite_refuses { s with pending := none } p.key p.val p.ts now sn hinv' hf h
+      | none =>
+        simp only [hf, entOut, Option.some.injEq] at h ⊢
+        exact ⟨(C19_writer_refuses _ _ _ _ now h).1, (C19_writer_refuses _ _ _ _ now h).2, trivial⟩
+    · rw [if_neg hcw] at h
+      simp [Out.none] at h
+
+/-- D81, regression witness: BEFORE fixes/D81.patch the KEEP_LAST replacement ran before the limits were checked.
+    KEEP_LAST(1), max_instances 1: write instance 2, unregister it (its sample stays), write instance 1 (takes the
+    only slot); a further write to instance 2 is refused with OutOfResources - but the old call had already evicted
+    the stored sample of instance 2 (one sample fewer), while the repaired call leaves the state untouched -/
+def d81Q : Qos :=
+  { depth := some 1, reliable := true, maxBlocking := some 0, maxSamples := none, maxInstances := some 1,
+    maxSpi := none, lifespan := none }
+def d81S : St := run (St.init d81Q) [.write 2 1 0 0, .unregister 2 0 0, .write 1 2 0 0]
+
+theorem C19_writer_refused_write_evicts_counterexample :
+    (methodWriteOld d81S 2 3 0 0).2.reply = some .outOfResources ∧ (methodWriteOld d81S 2 3 0 0).2.evicted = [1] ∧
+    totalSamples d81S.insts = 2 ∧ totalSamples (methodWriteOld d81S 2 3 0 0).1.insts = 1 ∧
+    (methodWrite d81S 2 3 0 0).2.reply = some .outOfResources ∧ (methodWrite d81S 2 3 0 0).2.evicted = [] ∧
+    totalSamples (methodWrite d81S 2 3 0 0).1.insts = 2 := by decide
 
 /-- C19 (writer, limits are never exceeded): with a consistent QoS (depth >= 1, depth <= max_samples_per_instance),
     after ANY event list (unregister_instance included) the writer holds at most max_samples samples, max_instances
